@@ -107,6 +107,11 @@ func (x *Xlat) twinB(t *Term, bound map[string]int) *Term {
 		}
 		return x.twinConst(t.Op, s)
 	}
+	if t.Op == "m_Inf" && x.lock != nil {
+		// math.Inf(s): a sentinel that scales with the unit (2 * Inf == Inf in IEEE arithmetic): the scaled execution sees
+		// "the same" infinity, which in the real-number model is its double
+		return App("*", SReal, x.lock.two, t)
+	}
 	changed := false
 	args := make([]*Term, len(t.Args))
 	for i, a := range t.Args {
@@ -158,14 +163,14 @@ func (x *Xlat) coupPair(t, tt *Term) *Term {
 		two := App("(as const "+s+")", s, x.lock.two)
 		return Eq(tt, App("(_ map (* (Real Real) Real))", s, two, t))
 	}
-	if k, v, ok := splitArrSort(s); ok && k == SInt {
-		if k2, _, ok2 := splitArrSort(v); ok2 && k2 == SInt {
-			// element heap: raw nested selects with both sides as triggers
+	if k, v, ok := splitArrSort(s); ok {
+		if k2, _, ok2 := splitArrSort(v); ok2 {
+			// element heap / map values: raw nested selects with both sides as triggers
 			x.qn++
 			an, in := fmt.Sprintf("la!%d", x.qn), fmt.Sprintf("li!%d", x.qn)
-			ab, ib := Const(an, SInt), Const(in, SInt)
+			ab, ib := Const(an, k), Const(in, k2)
 			a, b := Sel(Sel(t, ab), ib), Sel(Sel(tt, ab), ib)
-			return Forall([]Bind{{an, SInt}, {in, SInt}}, x.coupPair(a, b), []*Term{a}, []*Term{b})
+			return Forall([]Bind{{an, k}, {in, k2}}, x.coupPair(a, b), []*Term{a}, []*Term{b})
 		}
 	}
 	if k, _, ok := splitArrSort(s); ok {
